@@ -227,6 +227,7 @@ func run(c *mc.Ctx) {
 		fieldConstants, pointConstants, basepointTables, oddTables, vectorTables, scalarConstants, latticeConstants, miscConstants,
 	}
 	sizes := map[string]int{}
+	var first []*space
 	for k, b := range builders {
 		var s *space
 		// building a space only reads reference values and the registries; still, nothing the tree under test does here
@@ -242,8 +243,26 @@ func run(c *mc.Ctx) {
 			}()
 			s = b(c)
 		}()
+		first = append(first, s)
+	}
+	// When a ".../after-use" case is replayed on its own, the history it observes (first pass + workload) is re-executed
+	// with its verdicts discarded; when a first-pass case is replayed, nothing else runs.
+	replayAfterUse := false
+	for _, s := range first {
+		if c.ReplayingSub(s.name + "/after-use") {
+			replayAfterUse = true
+		}
+	}
+	for _, s := range first {
 		sizes[s.name] = len(s.cases)
-		s.run(c, true)
+		s.run(c, replayAfterUse)
+	}
+	if c.Rep.NViolations > 0 || (c.Replaying() && !replayAfterUse) {
+		// a constant is already wrong: running the library on top of it proves nothing more (and a routine driven by a wrong
+		// constant need not even terminate)
+		c.Rep.Extra["workload"] = "skipped: the first pass already found violations (or a first-pass case is being replayed)"
+		c.Rep.Extra["sub_space_sizes"] = sizes
+		return
 	}
 	// State between calls (T2/T3): the constants are live, mutable objects.  After every lookup flavour has been used
 	// with every index (negative ones included: conditional negation must happen on a copy) and after the public
@@ -262,7 +281,7 @@ func run(c *mc.Ctx) {
 		}()
 		use = workload(c)
 		sizes[use.name] = len(use.cases)
-		use.run(c, true)
+		use.run(c, replayAfterUse)
 	}()
 	for _, b := range builders {
 		var s *space
